@@ -551,6 +551,11 @@ func (tr *gtTr) generalRange(x *ast.RangeStmt, env *venv, next cont) gnode {
 	if !ok {
 		gtFail("range loop value is not an identifier")
 	}
+	// Go reads xs[i] from the backing array at every iteration: a body that assigns (elements of) the slice it ranges
+	// over would see its own writes, the recursion over the list would not
+	if k, _, ok := tr.rootOf(x.X, env); ok && keys[k] {
+		gtFail("the range loop assigns the slice it ranges over")
+	}
 	if val.Name != "_" && keys[stKey{val.Name, ""}] {
 		// assigning the value variable is local to the iteration; the state scan would wrongly pick an outer variable
 		// of the same name
